@@ -1367,7 +1367,15 @@ fn preprocess_initial_file(
 
     // Add initial macros
     for (name, value) in initial_defines {
-        let tokens = match TokenStream::new(value, SourceLocation::UNKNOWN)
+        // Register the value as a source file so its tokens have locations like any others
+        // Token pasting and diagnostics need the source text of the tokens they process
+        let value_file = file_loader
+            .source_manager
+            .add_file(FileName(format!("<define {name}>")), value.to_string());
+        let value_location =
+            file_loader.get_source_location_from_file_offset(value_file, StreamLocation(0));
+
+        let tokens = match TokenStream::new(value, value_location)
             .suppress_trailing_endline()
             .read_to_end()
         {
